@@ -100,6 +100,10 @@ CHECKS["C11"] = dict(
 NOT_APPLICABLE = {
 }
 
+SUFFIX = (" Rules added after seeded-change testing (DESIGN.md §8.2, §8.8) are part of the check: the generic error-discipline rule R<n>.E over the "
+          "packages the property rests on, the 'verdict not bypassed' clause, and rules imported from the sibling property that owns a mechanism. "
+          "The complete rule list with the instances examined on this run is in the evidence file (coverage.explanation, rules[]).")
+
 ALL = ["C%02d" % i for i in range(1, 21)]
 
 
@@ -116,7 +120,7 @@ def main():
                 "evidence_file": "evidence/%s.json" % pid,
                 "replay_cmd_template": "./bin/celcheck -replay {path}",
                 "engine": "celcheck",
-                "level_claimed": {"category": "other", "text": c["text"], "design_ref": c["design"]},
+                "level_claimed": {"category": "other", "text": c["text"] + SUFFIX, "design_ref": c["design"] + "; as built: DESIGN.md §8"},
                 "level_note": TRUST,
                 "technique": "static analysis: " + c["technique"],
             })
